@@ -201,13 +201,8 @@ def sizeLine (buf : Bytes) (cap pos : Nat) : SizeLine :=
         | some chunkSize =>
           if chunkSize > cap then .bad
           else
-            let afterHex := line.drop hexRun.length
-            let ws := afterHex.takeWhile isOWS
-            let okTail : Bool :=
-              match afterHex.drop ws.length with
-              | c :: _ => c == 59                                            -- `;` begins a chunk-ext
-              | [] => ws.isEmpty                                             -- trailing BWS before CRLF is malformed
-            if okTail then .ok chunkSize (pos + off + 1) else .bad
+            -- after the hex run: `;` (chunk-ext, possibly after BWS) or the CRLF; BWS before the CRLF is malformed
+            if chunkExtOk (line.drop hexRun.length) then .ok chunkSize (pos + off + 1) else .bad
 
 /-- one iteration of `advanceChunked`'s outer loop at `st.pos` -/
 def chunkStep (buf : Bytes) (cap : Nat) (st : ChunkState) : StepRes :=
